@@ -41,7 +41,11 @@ impl Pairing for CP6_782 {
     ) -> MillerLoopOutput<Self> {
         let mut result = Self::TargetField::one();
         a.into_iter().zip_eq(b).for_each(|(p, q)| {
-            let (p, q) = (p.into(), q.into());
+            let (p, q): (G1Prepared, G2Prepared) = (p.into(), q.into());
+            // e(0, Q) = e(P, 0) = 1; the affine Miller loop below cannot handle infinity.
+            if p.is_zero() || q.is_zero() {
+                return;
+            }
             result *= &CP6_782::ate_miller_loop(&p, &q);
         });
 
